@@ -736,7 +736,7 @@ class PixelAlgorithms(AccessorBase):
             output_core_dims=[["time"]],
             keep_attrs=True,
             dask="parallelized",
-            dask_gufunc_kwargs={"meta": self._obj.data},
+            dask_gufunc_kwargs={"meta": self._obj.data.astype("float32")},
         )
 
 
